@@ -81,7 +81,7 @@ type c10Case struct {
 // plain region has at least two sectors (single-sector plain regions are ambiguous in the
 // statement), later regions may lie beyond the file.
 func genRegions(r *rand.Rand, sectors int) ([]refcrypt.Region, string) {
-	shape := []string{"two", "few", "many", "adjacent", "enc-to-eof", "beyond", "last-sector"}[r.Intn(7)]
+	shape := []string{"two", "few", "many", "adjacent", "enc-to-eof", "beyond", "last-sector", "far-border"}[r.Intn(8)]
 	var regs []refcrypt.Region
 	cur := uint32(0)
 	add := func(plainLen, gap uint32) {
@@ -121,6 +121,15 @@ func genRegions(r *rand.Rand, sectors int) ([]refcrypt.Region, string) {
 		add(uint32(2+r.Intn(5)), uint32(sectors))
 		add(10, 3)
 		add(7, 0)
+	case "far-border":
+		// sector numbers are 32-bit unsigned in the table: later plain regions may start at or beyond
+		// 2^31 (far behind the file): everything after the first plain region is encrypted up to EOF
+		add(uint32(2+r.Intn(max(1, sectors/2))), 0)
+		cur = []uint32{1<<31 - 3, 1<<31 - 2, 1<<31 - 1, 1 << 31, 1<<31 + 1, 3 << 30, 1<<32 - 40}[r.Intn(7)]
+		add(uint32(2+r.Intn(5)), uint32(r.Intn(3)))
+		if r.Intn(2) == 0 && cur < 1<<32-20 {
+			add(uint32(2+r.Intn(5)), 0)
+		}
 	case "last-sector":
 		a := uint32(2 + r.Intn(max(1, sectors/2)))
 		add(a, 0)
